@@ -42,13 +42,20 @@ def run_traces(traces, jobs=None):
         return list(ex.map(run_trace, traces))
 
 
-MISM_RE = re.compile(r"^MISMATCH line (\d+) cat=(\S+) op=(\S+) :: (.*?) => (.*?) :: (.*)$")
+MISM_RE = re.compile(r"^MISMATCH line (\d+) cat=(\S+) op=(\S+) :: (.*?) => (.*?) :: (.*?)(?: :: ctx (.*))?$")
 
 
 def parse_mismatch(line):
     m = MISM_RE.match(line)
     if not m: return None
-    return {"line": int(m.group(1)), "cat": m.group(2), "op": m.group(3), "opline": m.group(4), "res": m.group(5), "why": m.group(6)}
+    ctx = {}
+    for kv in (m.group(7) or "").split():
+        if "=" in kv:
+            k, v = kv.split("=", 1); ctx[k] = v
+    res = m.group(5).split()
+    return {"line": int(m.group(1)), "cat": m.group(2), "op": m.group(3), "opline": m.group(4), "res": m.group(5), "why": m.group(6),
+            "ctx": ctx, "implrv": int(res[0]) if res and res[0].isdigit() else None,
+            "modelrv": int(ctx["modelrv"]) if ctx.get("modelrv", "").isdigit() else None}
 
 
 def shrink(trace, keeps, budget_s=40):
@@ -261,6 +268,7 @@ def k_suite(ctx, kres, suite_name, traces, in_projection, sig_of=None, direct=No
             kres["notes"].append("%s/%s: %d lines not understood by the model driver: %s" % (suite_name, r.trace.name, len(r.unparsed), r.unparsed[0][:200]))
         dv = direct(r) if direct else []
         first = parse_mismatch(r.mism[0]) if r.mism else None
+        if first is not None: first["result"] = r
         crashed = r.crashed
         interesting = None
         if dv:
@@ -281,6 +289,7 @@ def k_suite(ctx, kres, suite_name, traces, in_projection, sig_of=None, direct=No
                 if kind == "crash": return rr.crashed
                 if not rr.mism: return False
                 f2 = parse_mismatch(rr.mism[0])
+                if f2 is not None: f2["result"] = rr
                 return f2 is not None and in_projection(f2) and (sig_of(f2) if sig_of else "%s.%s" % (f2["op"], f2["cat"])) == s
             small = shrink(r.trace, keeps, shrink_budget) if shrink_budget else r.trace
             viols.append(Violation(s, text + "\n(trace %s of suite %s)" % (r.trace.name, suite_name), small.ops))
